@@ -373,6 +373,38 @@ pub fn teval(args: &[String]) {
         println!("{{\"kind\":\"te\",\"case\":{},{},\"n_requested\":{},\"status\":\"{:?}\",\"branch\":\"{}\",\"finding_key\":\"{}\",\"ok\":{},\"why\":{:?}}}", case, desc(&s), pts.len(), sol.status, branch, key, why.is_empty(), why);
     }
     far_from_origin(seed, cases);
+    fast_tiny_steps();
+}
+
+/// C05 with steps shorter than the handler's time tolerance (1e-12): fast dynamics y' = lam y on [0, 3 / lam] with
+/// max_step = 7e-13.  Every requested time carries the value of the step interpolant there (= exp(lam t) to the accuracy
+/// of the run), not the value at a nearby step end.
+fn fast_tiny_steps() {
+    struct Fast(f64);
+    impl IVP for Fast { fn ode(&self, _x: f64, y: &[f64], d: &mut [f64]) { d[0] = self.0 * y[0]; } }
+    let mut k = 0;
+    for method in [Method::RK23, Method::DOPRI5, Method::DOP853, Method::RADAU, Method::BDF] {
+        for (lam, dirn) in [(1e9, 1.0), (1e9, -1.0), (-1e9, 1.0)] {
+            let xend = dirn * 3e-9;
+            let pts: Vec<f64> = (0..=20).map(|j| xend * (j as f64) / 20.0).collect();
+            let mut o = Options::builder().method(method).rtol(1e-8).atol(1e-11).build();
+            o.max_step = Some(7e-13);
+            o.t_eval = Some(pts.clone());
+            let mut why = String::new();
+            let mut status = String::new();
+            if let Ok(sol) = solve_ivp(&Fast(lam), 0.0, xend, &[1.0], o) {
+                status = format!("{:?}", sol.status);
+                if sol.status == Status::Success && sol.t != pts { why = format!("Success but {} of {} requested times reported", sol.t.len(), pts.len()); }
+                for (t, y) in sol.t.iter().zip(sol.y.iter()) {
+                    let ex = (lam * t).exp();
+                    if why.is_empty() && (y[0] - ex).abs() > 1e-5 * ex { why = format!("value at requested t = {:e} is {:e}, the solution there is {:e} (relative error {:.2e}; steps are shorter than the handler's tolerance)", t, y[0], ex, (y[0] - ex).abs() / ex); }
+                }
+            }
+            println!("{{\"kind\":\"te\",\"case\":{},\"problem\":\"y'={:e}y\",\"method\":\"{}\",\"x0\":0,\"xend\":{:e},\"n_requested\":21,\"status\":\"{}\",\"branch\":\"fast-tiny-steps\",\"finding_key\":\"{}\",\"ok\":{},\"why\":{:?}}}",
+                710000 + k, lam, method_name(method), xend, status, if why.is_empty() { "" } else { "c05-tiny-step-value" }, why.is_empty(), why);
+            k += 1;
+        }
+    }
 }
 
 /// slowly varying right-hand side: the step size grows until single steps are as long as the distance to the origin
